@@ -35,32 +35,31 @@ var frozenTable = map[string]string{
 	// the leaf parsers run in a fixed order (R-LEAFORDER); parseInt is first and returns an error unless hasNext(),
 	// so when the list parser (last in the list) runs, p.idx < len(p.tokens) still holds: no leaf parser before it
 	// consumed a token without returning.
-	"(*parser).parseList$1|index|p.tokens[p.idx]": "buildLeafNode calls the leaf parsers in list order and returns at the first answer; parseInt (first) fails unless p.idx < len(p.tokens), and a parser that walks returns a node, so the list parser (installed last) is entered with p.idx in range",
+	"(*parser).parseList$1|index|$1.tokens[$1.idx]": "buildLeafNode calls the leaf parsers in list order and returns at the first answer; parseInt (first) fails unless p.idx < len(p.tokens), and a parser that walks returns a node, so the list parser (installed last) is entered with p.idx in range",
 	// errNoNextToken passes len(source)-1, pos() clamps i into [0, len(A)) and returns early for empty A
-	"(*parser).pos|index|A[i]":     "i is clamped to 0 unless 0 <= i < len(A), and the function returns before this point when len(A) == 0",
-	"(*parser).pos|slice|A[0:i]":   "0 <= i < len(A) after the clamp",
-	"(*parser).pos|slice|A[l:i]":   "l = i - 30 >= 0 on this branch and i < len(A)",
-	"(*parser).pos|slice|A[i+1:]":  "reached only when i < len(A)-1",
-	"(*parser).pos|slice|A[i+1:r]": "reached only when r = i+30 <= len(A)-1 and i+1 <= r",
-	"(*parser).lex|slice|t[1:]":    "reached only under strings.HasPrefix(t, \"!\"): len(t) >= 1",
+	"(*parser).pos|index|$1[$2]":     "i is clamped to 0 unless 0 <= i < len(A), and the function returns before this point when len(A) == 0",
+	"(*parser).pos|slice|$1[0:$2]":   "0 <= i < len(A) after the clamp",
+	"(*parser).pos|slice|$1[$2:$3]":   "l = i - 30 >= 0 on this branch and i < len(A)",
+	"(*parser).pos|slice|$1[$2+1:]":  "reached only when i < len(A)-1",
+	"(*parser).pos|slice|$1[$2+1:$3]": "reached only when r = i+30 <= len(A)-1 and i+1 <= r",
+	"(*parser).lex|slice|$1[1:]":    "reached only under strings.HasPrefix(t, \"!\"): len(t) >= 1",
 	// lexer cursor: start <= i <= len(A). i starts at 0 and only ever advances by one, either under the loop guard
 	// i < len(A) or right after a rune at i was read (i < len(A) there), so i <= len(A); start is a copy of an
 	// earlier i (or i+1 under i < len(A)), and i never decreases.
-	"(*parser).lex$1|slice|A[i:i]":           "comment scan: start is the value of i at entry, the loop only increments i under i < len(A): start <= i <= len(A)",
-	"(*parser).lex$3|slice|A[start:i]":       "token scan: start <= i <= len(A) (start follows i past leading spaces, one step at a time, each under i < len(A); the final i += 1 happens only when start == i < len(A))",
+	"(*parser).lex$1|slice|$1[$2:$2]":           "comment scan: start is the value of i at entry, the loop only increments i under i < len(A): start <= i <= len(A)",
+	"(*parser).lex$3|slice|$1[$2:$3]":       "token scan: start <= i <= len(A) (start follows i past leading spaces, one step at a time, each under i < len(A); the final i += 1 happens only when start == i < len(A))",
 	"(*parser).lex|slice|lex$3()#0[1:len-1]": "reached only under strings.HasPrefix(t, `\"`): such a token comes from the string scanner, which returns A[start:i] only after it advanced past the opening quote and consumed a closing quote: len(t) >= 2",
 	// fetchVariableValueProxy is called from TryEval's variable arm (kind == variable) and from getNodeValueProxy's
 	// non-constant arm, which is applied only to the two leaf children of a fast operator (C05 R-FASTPROXY); by R-KIND
 	// a leaf that is not a constant is a variable, whose value is its name.
-	"fetchVariableValueProxy|assert|n.value.(string)": "n is a variable node at both call sites (TryEval's variable arm; the non-constant leaf child of a fast operator, C05 R-FASTPROXY + C01 R-KIND)",
+	"fetchVariableValueProxy|assert|$1.value.(string)": "n is a variable node at both call sites (TryEval's variable arm; the non-constant leaf child of a fast operator, C05 R-FASTPROXY + C01 R-KIND)",
 	// library contract of sort.SliceStable: less(i, j) is called with 0 <= i, j < len of the slice handed to it, which is
 	// root.children itself (C16 R-LESS checks that the comparator indexes the sorted slice).
-	"optimizeReordering$1|index|root.children[i]": "sort.SliceStable calls less with indices of the slice it sorts, which is root.children (C16 R-LESS)",
-	"optimizeReordering$1|index|root.children[j]": "sort.SliceStable calls less with indices of the slice it sorts, which is root.children (C16 R-LESS)",
+	"optimizeReordering$1|index|$1.children[$2]": "sort.SliceStable calls less with indices of the slice it sorts, which is root.children (C16 R-LESS)",
 	// the slice-backed fetcher tests only the upper bound of the key; keys reach it from variable nodes, whose keys are
 	// values of VariableKeyMap, all >= minKey >= 0 when this fetcher is chosen (C11 R-FETCHGATE); the UndefinedVarKey marker
 	// occurs only in undefined-variable mode, which always takes the map-backed fetcher.
-	"(SliceVarFetcher).Get|index|s[key]": "constructed by NewCtxFromVars only when 0 <= minKey over all registered keys (C11 R-FETCHGATE); a hand-built fetcher with negative keys is outside 'well-behaved fetchers'",
+	"(SliceVarFetcher).Get|index|$1[$2]": "constructed by NewCtxFromVars only when 0 <= minKey over all registered keys (C11 R-FETCHGATE); a hand-built fetcher with negative keys is outside 'well-behaved fetchers'",
 }
 
 func (l *ledger) scan(fn *ssa.Function) {
@@ -118,7 +117,7 @@ func (l *ledger) scan(fn *ssa.Function) {
 			}
 			kind = "assert"
 			what = describe(x)
-			shape = what
+			shape = shapeOf(x.X) + ".(" + types.TypeString(x.AssertedType, relTo) + ")"
 			check = func() (bool, string) { return l.assertSafe(x) }
 		case *ssa.MakeSlice:
 			if _, ok := constInt(x.Len); ok {
@@ -182,7 +181,8 @@ func (l *ledger) scan(fn *ssa.Function) {
 			l.r.Undecided(rule, pos, name, kind+": "+what, "invariant-governed ("+gov+"); "+why)
 			return
 		}
-		if reason, okf := frozenTable[name+"|"+kind+"|"+shape]; okf {
+		shape, ashape := plainShape(shape), alphaShape(shape)
+		if reason, okf := frozenTable[name+"|"+kind+"|"+ashape]; okf {
 			l.counts["frozen-table"]++
 			l.r.Add(Obligation{Rule: rule, Pos: pos, Func: name, What: kind + ": " + what, Verdict: Discharged, Why: "frozen table [" + shape + "]: " + reason})
 			return
@@ -190,6 +190,35 @@ func (l *ledger) scan(fn *ssa.Function) {
 		l.counts["violated"]++
 		l.r.Fail(rule, pos, name, kind+": "+what, "input-facing site with no proof that it cannot panic ("+why+"); shape "+shape)
 	})
+}
+
+// plainShape strips the markers around local names (for messages).
+func plainShape(s string) string {
+	return strings.NewReplacer("\x01", "", "\x02", "").Replace(s)
+}
+
+// alphaShape replaces every local name by a positional placeholder ($1, $2, … in order of first
+// occurrence), so that frozen-table keys survive a consistent renaming of locals and parameters.
+func alphaShape(s string) string {
+	var b strings.Builder
+	names := map[string]string{}
+	for i := 0; i < len(s); i++ {
+		if s[i] != '\x01' {
+			b.WriteByte(s[i])
+			continue
+		}
+		j := strings.IndexByte(s[i:], '\x02')
+		if j < 0 {
+			break
+		}
+		n := s[i+1 : i+j]
+		if _, ok := names[n]; !ok {
+			names[n] = fmt.Sprintf("$%d", len(names)+1)
+		}
+		b.WriteString(names[n])
+		i += j
+	}
+	return b.String()
 }
 
 func (l *ledger) summary() {
@@ -215,12 +244,12 @@ func shapeOf(v ssa.Value) string {
 		}
 		return x.Value.ExactString()
 	case *ssa.Parameter:
-		return x.Name()
+		return "\x01" + x.Name() + "\x02"
 	case *ssa.FreeVar:
-		return x.Name()
+		return "\x01" + x.Name() + "\x02"
 	case *ssa.Alloc:
 		if x.Comment != "" {
-			return x.Comment
+			return "\x01" + x.Comment + "\x02"
 		}
 		return "local"
 	case *ssa.Global:
@@ -235,7 +264,7 @@ func shapeOf(v ssa.Value) string {
 		return shapeOf(x.X) + "." + fieldName(x.X.Type(), x.Field)
 	case *ssa.Phi:
 		if x.Comment != "" {
-			return x.Comment
+			return "\x01" + x.Comment + "\x02"
 		}
 		return "phi"
 	case *ssa.BinOp:
